@@ -168,6 +168,17 @@ def run(tier='quick'):
     _c10.runtime_statics(prog, chk, K6)
     tables_match_reference(prog, chk, K6, ('Playlist', 'PlaylistEntity', 'Crate', 'CrateTrackList', 'List',
                                            'ListTrackList', 'Track'))
+    K7 = chk.rule('K7', 'add_track makes a member only of a live track of this library: before its first write it reads '
+                        'the Track table keyed by the id it was given and throws when there is no such row (foreign keys '
+                        'are not enforced, so nothing else would refuse it), and likewise for its own crate', floor=6)
+    from . import c07 as _c07
+    for qn in (_c07.V1 + 'engine_crate_impl::add_track', _c07.V2 + 'crate_impl::add_track'):
+        _c07.liveness_guard(prog, cg, eff, chk, K7, qn, ('track',), 'arg',
+                            'an id that names no track (never created, removed, zero or negative) becomes a member: '
+                            'tracks() returns a handle that is not live, a track created later with that id is born '
+                            'inside the crate, and on 2.x the entry chain is not respliced when such an entry is removed')
+        _c07.liveness_guard(prog, cg, eff, chk, K7, qn, ('crate', 'list', 'playlist'), 'own',
+                            'a membership is written for a crate that does not exist')
     return chk.finish('value-flow interpretation of the membership operations of both implementations '
                       '(id kinds of bound values, event order), reference graph and triggers read from the DDL '
                       'of every schema version')
